@@ -37,7 +37,9 @@ def units(tier):
         elif len(p["atoms"]) == 2 and tier == "thorough":
             yield {"ref": ["prog", p]}
     for name in CASCADES:
-        for n in (3, 6, 9, 12) if tier == "quick" else (3, 6, 9, 12, 20, 30):
+        # sizes beyond 5 passes x 5 applications = 25 matter: a budget of 5 where 25 was meant still converges for n <= 25
+        # (sizes 20 and 30 moved into the quick tier after the seeded change C09-first-loop-module-pass-budget)
+        for n in (3, 6, 9, 12, 20, 30) if tier == "quick" else (3, 6, 9, 12, 20, 30, 45, 60):
             yield {"ref": ["cascade", name, n]}
     for shape in LAYOUT_SHAPES:
         for n in (1, 3, 6):
@@ -61,6 +63,8 @@ CASCADES = {
     "unused_chain": lambda n: "def f():\n" + "    a0 = 1\n" + "".join("    a%d = a%d + 1\n" % (i, i - 1) for i in range(1, n)) + "    return 0\nprint(f())\n",
     "unused_function_chain": lambda n: "".join("def g%d():\n    return %s\n" % (i, "g%d()" % (i - 1) if i else "1") for i in range(n)) + "print(0)\n",
     "nested_dead_if": lambda n: "x = 1\n" + "".join("    " * i + "if %s:\n" % ("True" if i % 2 else "1") for i in range(n)) + "    " * n + "x = 2\nprint(x)\n",
+    "alias_chain_return": lambda n: "def f(q):\n    a0 = q.compute()\n" + "".join("    a%d = a%d\n" % (i, i - 1) for i in range(1, n)) + "    return a%d\nclass Q:\n    def compute(self):\n        return 7\nprint(f(Q()))\n" % (n - 1),
+    "unused_chain_module": lambda n: "a0 = 1\n" + "".join("a%d = a%d * 2\n" % (i, i - 1) for i in range(1, n)) + "print(0)\n",
     "else_return_ladder": lambda n: "def f(c):\n" + "".join("    " * (i + 1) + "if c > %d:\n" % i + "    " * (i + 2) + "return %d\n" % i + "    " * (i + 1) + "else:\n" for i in range(n)) + "    " * (n + 1) + "return -1\nprint(f(2))\n",
 }
 
